@@ -83,6 +83,23 @@ def hdens_cdf(x, m=3.2, s=1.9):
     return np.array([0.5 * (1.0 + math.erf((xi - m) / (s * math.sqrt(2.0)))) for xi in np.atleast_1d(x)])
 
 
+# the same shapes as count densities (HistFit(density=False): the model function itself carries the normalisation)
+def gcount(x, n=28.0, mu=2.9, sigma=1.6):
+    return n * gdens(x, mu, sigma)
+
+
+def gcount_cdf(x, n=28.0, mu=2.9, sigma=1.6):
+    return n * gdens_cdf(x, mu, sigma)
+
+
+def hcount(x, c=22.0, m=3.2, s=1.9):
+    return c * hdens(x, m, s)
+
+
+def hcount_cdf(x, c=22.0, m=3.2, s=1.9):
+    return c * hdens_cdf(x, m, s)
+
+
 ENTRIES_A = np.array(
     [0.3, 0.8, 1.1, 1.4, 1.7, 1.9, 2.2, 2.4, 2.5, 2.7, 2.9, 3.0, 3.2, 3.3, 3.6, 3.8, 4.1, 4.4, 4.6, 4.9, 5.3, 5.8, 2.1, 2.8, 3.1, 1.5, 3.9, 0.6, 4.2, 2.6]
 )
@@ -91,12 +108,30 @@ EDGES_A = np.array([0.2, 1.0, 2.0, 3.5, 4.5, 6.0])  # unequal widths, positive (
 EDGES_B = np.array([0.45, 1.95, 3.45, 4.95, 6.45])  # equal widths
 
 UNC = {
-    "xy": ["none", "y", "xy", "y+relm", "poisson", "ga+y"],
+    "xy": ["none", "y", "xy", "x+rely", "y+relm", "poisson", "ga+y"],
     "indexed": ["none", "y", "y+relm", "poisson", "ga+y"],
     "hist": ["none", "y", "poisson", "ga+y"],
     "unbinned": ["none"],
 }
 UNC_THOROUGH_EXTRA = {"xy": ["poisson+y", "y+fixed"], "indexed": ["poisson+y"], "hist": ["poisson+y"], "unbinned": []}
+# the data dimension: where in the value space the plotted numbers lie
+#   regular : every count / value is positive, every histogram entry lies inside the bin range
+#   zero    : one point is exactly zero (a zero count / an empty bin): with Poisson statistics and no declared source the
+#             total uncertainty of that one point is zero while all others have sqrt(n) > 0
+#             (likewise a y uncertainty purely relative to the data, 'x+rely', vanishes at that point)
+#   outflow : (histograms) the container also holds entries below the first and above the last bin edge (underflow /
+#             overflow): the in-range sum differs from the number of entries the model is scaled to
+#   counts  : (histograms) regular entries, but the model function is a count density that carries its own normalisation
+#             parameter (HistFit(density=False)): nothing is scaled with the number of entries
+DATA = {
+    "xy": ["regular", "zero"],
+    "indexed": ["regular", "zero"],
+    "hist": ["regular", "zero", "outflow", "counts"],
+    "unbinned": ["regular"],
+}
+ZERO_INDEX = {"A": 2, "B": 3}  # which point carries the zero (differs between the two fits of a plot)
+EMPTY_BIN = {"A": 0, "B": -1}  # which histogram bin is emptied
+OUTFLOW = {"A": (np.array([0.05, 0.12]), np.array([6.3, 6.9, 7.4])), "B": (np.array([0.1, 0.2, 0.3]), np.array([6.9, 7.5]))}  # (underflow, overflow): counts differ
 AXES = {
     "xy": ["lin", "logx", "logy", "logxy"],
     "indexed": ["lin", "logy"],
@@ -105,11 +140,31 @@ AXES = {
 }
 
 
-def entries_for(role, v):
+def axes_for(ftype, data, tier):
+    """axis scales on which a data region is plotted: the regular one on all scales of the adapter, the others on linear axes
+    (quick) or on linear and on fully logarithmic axes (thorough)"""
+    if data == "regular":
+        return list(AXES[ftype])
+    return ["lin"] if tier == "quick" else ["lin", AXES[ftype][-1]]
+
+
+def entries_for(role, v, data="regular"):
     base = ENTRIES_A if role == "A" else ENTRIES_B
-    # valuation dependent; all entries stay strictly inside the bin range of their role (no under/overflow) and
+    edges = EDGES_A if role == "A" else EDGES_B
+    if data == "outflow":
+        base = np.concatenate([OUTFLOW[role][0][:1], base, OUTFLOW[role][1], OUTFLOW[role][0][1:]])
+    # valuation dependent; the regular entries stay strictly inside the bin range of their role (no under/overflow) and
     # away from the bin edges; counts are recomputed by the reference
-    return np.round(base * (1.0 - 0.02 * v) + 0.03 * v, 6)
+    e = np.round(base * (1.0 - 0.02 * v) + 0.03 * v, 6)
+    if data == "zero":
+        k = EMPTY_BIN[role] % (len(edges) - 1)
+        e = e[~((e >= edges[k]) & (e < edges[k + 1]))]
+    if data == "outflow":
+        nu, no = len(OUTFLOW[role][0]), len(OUTFLOW[role][1])
+        assert np.sum(e < edges[0]) == nu and np.sum(e >= edges[-1]) == no and nu != no
+    else:
+        assert np.all((e >= edges[0]) & (e < edges[-1]))
+    return e
 
 
 def hist_counts(entries, edges):
@@ -120,16 +175,19 @@ def hist_counts(entries, edges):
 class World(object):
     """One real kafe2 fit + the plain numbers it was built from (the reference)."""
 
-    def __init__(self, ftype, unc, v, role):
+    def __init__(self, ftype, unc, v, role, data="regular"):
         import kafe2
 
-        self.ftype, self.unc, self.v, self.role = ftype, unc, int(v) % 3, role
+        if data not in DATA[ftype]:
+            raise ValueError("no data variant %r for %s fits" % (data, ftype))
+        self.ftype, self.unc, self.v, self.role, self.data = ftype, unc, int(v) % 3, role, data
         n = 6
         val = V(v, n)
         self.poisson = unc in ("poisson", "ga+y", "poisson+y")
         with_y = unc in ("y", "xy", "ga+y", "poisson+y", "y+fixed", "y+relm")
+
         self.rm = 0.0  # size of a y uncertainty relative to the MODEL (its bar follows the fitted model values)
-        cost = {"none": "chi2", "y": "chi2", "xy": "chi2", "y+fixed": "chi2", "y+relm": "chi2", "poisson": "nll", "poisson+y": "nll", "ga+y": "gauss_approximation"}[unc]
+        cost = {"none": "chi2", "y": "chi2", "xy": "chi2", "y+fixed": "chi2", "y+relm": "chi2", "poisson": "nll", "poisson+y": "nll", "ga+y": "gauss_approximation", "x+rely": "chi2"}[unc]
         if ftype == "unbinned":
             cost = "nll"
         self.cost = cost
@@ -147,6 +205,7 @@ class World(object):
                     self.y = val.yint if role == "A" else val.yint_alt
                 else:
                     self.y = val.y if role == "A" else val.y_alt
+                self.y = self._with_zero(self.y)
                 self.fn, self.jac = (lin, lin_jac) if role == "A" else (expo, expo_jac)
                 f = kafe2.XYFit([self.x, self.y], self.fn, cost_function=cost)
                 self.yerr = np.zeros(n)
@@ -164,6 +223,12 @@ class World(object):
                     f.add_error("y", val.ry, relative=True)
                     self.xerr = np.sqrt(ex**2 + (val.rx * self.x) ** 2)
                     self.yerr = np.sqrt(ey**2 + (val.ry * self.y) ** 2)
+                if unc == "x+rely":  # the only y source is relative to the data: it vanishes where the data are zero
+                    ex = val.ex if role == "A" else val.ex2
+                    f.add_error("x", ex)
+                    f.add_error("y", val.ry, relative=True)
+                    self.xerr = np.array(ex, dtype=float)
+                    self.yerr = np.abs(val.ry * self.y)
                 if unc == "y+relm":
                     f.add_error("y", val.rm, relative=True, reference="model")
                     self.rm = float(val.rm)
@@ -177,6 +242,7 @@ class World(object):
                     self.y = val.yint if role == "A" else val.yint_alt
                 else:
                     self.y = val.y if role == "A" else val.y_alt
+                self.y = self._with_zero(self.y)
                 self.fn = make_imodel(n) if role == "A" else make_jmodel(n)
                 f = kafe2.IndexedFit(self.y, self.fn, cost_function=cost)
                 self.yerr = np.zeros(n)
@@ -191,14 +257,20 @@ class World(object):
                         self.rm = float(val.rm)
             elif ftype == "hist":
                 self.edges = EDGES_A if role == "A" else EDGES_B
-                self.entries = entries_for(role, v)
+                self.entries = entries_for(role, v, data)
                 self.fn, self.cdf = (gdens, gdens_cdf) if role == "A" else (hdens, hdens_cdf)
+                if data == "counts":
+                    self.fn, self.cdf = (gcount, gcount_cdf) if role == "A" else (hcount, hcount_cdf)
                 nb = len(self.edges) - 1
                 c = kafe2.HistContainer(n_bins=nb, bin_range=(self.edges[0], self.edges[-1]), bin_edges=list(self.edges), fill_data=list(self.entries))
-                f = kafe2.HistFit(c, self.fn, cost_function=cost, bin_evaluation=self.cdf)
+                f = kafe2.HistFit(c, self.fn, cost_function=cost, bin_evaluation=self.cdf, **(dict(density=False) if data == "counts" else {}))
                 self.y = hist_counts(self.entries, self.edges)
-                self.n_entries = float(np.sum(self.y))
-                assert self.n_entries == len(self.entries)
+                # the number the model is scaled to: ALL entries of the container, inside the bin range or not
+                self.n_entries = float(len(self.entries))
+                assert (self.n_entries == np.sum(self.y)) == (data != "outflow")
+                assert bool(np.any(self.y == 0)) == (data == "zero")
+                # what the model function is multiplied with to give entries per unit x
+                self.scale = 1.0 if data == "counts" else self.n_entries
                 self.x = 0.5 * (self.edges[1:] + self.edges[:-1])
                 self.xerr = 0.5 * (self.edges[1:] - self.edges[:-1])
                 self.yerr = np.zeros(nb)
@@ -222,6 +294,12 @@ class World(object):
         self.fit = f
         self.num = f  # the fit whose public results are the expectation (a never-plotted twin when plotting re-minimises)
 
+    def _with_zero(self, y):
+        y = np.array(y, dtype=float)
+        if self.data == "zero":
+            y[ZERO_INDEX[self.role]] = 0.0
+        return y
+
     # -- reference numbers --------------------------------------------------------------
     def pars(self):
         return [float(p) for p in self.num.parameter_values]
@@ -234,7 +312,7 @@ class World(object):
             return self.fn(*p)
         if self.ftype == "hist":
             cdf = self.cdf(self.edges, *p)
-            return (cdf[1:] - cdf[:-1]) * self.n_entries
+            return (cdf[1:] - cdf[:-1]) * self.scale
         raise ValueError
 
     def ybar(self):
